@@ -49,3 +49,6 @@ func VerifRegisteredFilters() []string {
 	sort.Strings(out)
 	return out
 }
+
+// VerifValueSafe reports the unexported safe flag of a Value.
+func VerifValueSafe(v *Value) bool { return v != nil && v.safe }
